@@ -96,11 +96,16 @@ def thresholds_nested(n, shape, kinds):
             rows.append([v for v, _ in items])
             good = good and all(ok for _, ok in items) and m in (1, n)
         spec, form = rows, "nested"
+    given_rows = [list(r) if isinstance(r, list) else r for r in spec] if isinstance(spec, list) else spec
     try:
         out, exc = set_thresholds(spec, n, True), None
     except Exception as e:  # noqa
         out, exc = None, e
     parts = {}
+    if isinstance(spec, list):  # the caller's specification object is left as it was given (rows included)
+        parts["input_not_mutated"] = len(spec) == len(given_rows) and all(
+            (len(a) == len(b) and all(x is y for x, y in zip(a, b))) if isinstance(a, list) else a is b
+            for a, b in zip(spec, given_rows))
 
     def rows_equal(a, b):
         return len(a) == len(b) and all(isinstance(x, list) and len(x) == len(y) for x, y in zip(a, b)) and L.And(
@@ -121,6 +126,13 @@ def thresholds_nested(n, shape, kinds):
                 parts["values_broadcast"] = rows_equal(out, [r * n if len(r) == 1 else r for r in spec])
             again = set_thresholds(out, n, True)
             parts["idempotent"] = rows_equal(again, out) if not (form == "flat" and len(out) == n == 1) else True
+            if form == "nested" and all(len(r) == 1 for r in given_rows):
+                # the same (all-singleton) specification object normalised again for another label count still broadcasts
+                try:
+                    other = set_thresholds(spec, n + 1, True)
+                    parts["reusable_for_another_label_count"] = all(len(r) == n + 1 for r in other)
+                except Exception:  # noqa
+                    parts["reusable_for_another_label_count"] = False
     else:
         parts["malformed_rejected"] = exc is not None
     return Out(parts=parts, obs={"exc": type(exc).__name__ if exc else None,
